@@ -21,11 +21,11 @@ _spec.loader.exec_module(c10)
 LEVELS = ["none", "format", "data", "all"]
 PBITS = {"none": 0, "format": 1, "data": 2, "all": 3}
 ERR = {"OK": 0, "ACCMODE": -13, "PROTECTED": -22, "BADINDEX": -19}
-META = {0: {"format"}, 1: {"sub/format1"}, 2: {"pre/format2"}}
+META = {0: {"format"}, 1: {"sub/format1"}, 2: {"pre/format2"}, 3: {"pre/deep/format3"}}
 
 
 def frag_of_path(p):
-    return 1 if p.startswith("sub/") else 2 if p.startswith("pre/") else 0
+    return 1 if p.startswith("sub/") else 3 if p.startswith("pre/deep/") else 2 if p.startswith("pre/") else 0
 
 
 # (harness op line, public name, model call or None)
@@ -163,6 +163,12 @@ def op_table():
     add("alter_frameoffset64 2 -1 1", "gd_alter_frameoffset64", None)
     add("uninclude 1 0", "gd_uninclude", "unincl 1 0")
     add("uninclude 1 1", "gd_uninclude", None)
+    add("uninclude 2 1", "gd_uninclude", None)      # fragment 2 includes the format-protected fragment 3: both files would go
+    add("uninclude 2 0", "gd_uninclude", None)
+    add("uninclude 3 1", "gd_uninclude", None)
+    add("delete skc 4", "gd_delete", None)          # GD_DEL_DEREF: bakes the value into the client xsc of fragment 0
+    add("delete skc 12", "gd_delete", None)
+    add("delete kc 4", "gd_delete", None)
     add("alter_affixes 1 p_ !", "gd_alter_affixes", "affix 1 0")
     add("alter_affixes 1 ! _s", "gd_alter_affixes", "affix 1 0")
     add("fragment_namespace 1 ns", "gd_fragment_namespace", "affix 1 0")
@@ -192,7 +198,7 @@ def parse_fdump(lines):
     return d
 
 
-FRAGNAME = {0: "/format", 1: "/sub/format1", 2: "/pre/format2"}
+FRAGNAME = {0: "/format", 1: "/sub/format1", 2: "/pre/format2", 3: "/pre/deep/format3"}
 
 
 def parse_meta(lines):
@@ -294,6 +300,12 @@ def main():
             cases.append({"id": "P%d" % len(cases), "mode": mode, "p0": p0, "p1": p1, "enc1": enc1, "line": line, "name": name, "model": model, "tag": tag,
                           "cmds": (["rmfile nofile", "rmfile sub/snofile", "rmfile sub/snofile.txt"] if "nofile" in line else []) + pre +
                                   ["dump", "op " + line, "close", "reopen RDONLY", "dump"]})
+    # /REFERENCE fix-ups: the reference field lives in fragment 1, the /REFERENCE directive in fragment 0, which is then protected
+    for line, name in (("rename sraw newsraw 0", "gd_rename"), ("rename sraw newsraw 1", "gd_rename"), ("delete sraw 8", "gd_delete"),
+                       ("delete sraw 10", "gd_delete"), ("move sraw 2 0", "gd_move"), ("hide sraw", "gd_hide"), ("alter_raw sraw 0x22 1 0", "gd_alter_raw")):
+        cases.append({"id": "P%d" % len(cases), "mode": "RDWR", "p0": "none", "p1": "none", "eff": ("format", "none"), "line": line, "name": name, "model": None,
+                      "tag": "reference field sraw, fragment 0 protected afterwards: ",
+                      "cmds": ["op reference sraw", "op alter_protection 1 0", "dump", "op " + line, "close", "reopen RDONLY", "dump"]})
     res = c10.run_cases(exe, cases)
     chk.cov["evaluations"] = len(cases)
     viol = {}
@@ -305,7 +317,7 @@ def main():
 
     for c in cases:
         r = res.get(c["id"])
-        what = "%s%s [%s, fragment 0 /PROTECT %s, fragment 1 /PROTECT %s]" % (c.get("tag", ""), "gd_" + c["line"] if not c["line"].startswith("gd_") else c["line"], c["mode"], c["p0"], c["p1"])
+        what = "%s%s [%s, fragment 0 /PROTECT %s, fragment 1 /PROTECT %s]" % (c.get("tag", ""), "gd_" + c["line"] if not c["line"].startswith("gd_") else c["line"], c["mode"], c.get("eff", (c["p0"],))[0], c["p1"])
         if r is None:
             model_bad.append((what, "no result")); continue
         txt = "\n".join(r["out"])
@@ -326,11 +338,11 @@ def main():
         # metadata of a fragment changed = what a fresh handle sees of it differs, or its format file appeared/disappeared
         # (a rewrite of the file with the same content in another layout is not a change of the metadata)
         if c["mode"] == "RDONLY":
-            ch_meta = sorted(g for g in (0, 1, 2) if any(p in META[g] for p in changed))
+            ch_meta = sorted(g for g in (0, 1, 2, 3) if any(p in META[g] for p in changed))
         else:
-            ch_meta = sorted(g for g in (0, 1, 2) if (FRAGNAME[g] in mb and FRAGNAME[g] in ma and mb[FRAGNAME[g]] != ma[FRAGNAME[g]])
+            ch_meta = sorted(g for g in (0, 1, 2, 3) if (FRAGNAME[g] in mb and FRAGNAME[g] in ma and mb[FRAGNAME[g]] != ma[FRAGNAME[g]])
                              or any((p in before) != (p in after) for p in META[g]))
-        ch_data = sorted(set(frag_of_path(p) for p in changed if p not in META[0] | META[1] | META[2] and not p.endswith("/") and p != "sub/newfmt"))
+        ch_data = sorted(set(frag_of_path(p) for p in changed if p not in META[0] | META[1] | META[2] | META[3] and p != "sub/badfrag" and not p.endswith("/") and p != "sub/newfmt"))
         kind = cls.get(c["name"], "U")
         nontrivial.add((c["name"], c["mode"], c["p0"], c["p1"], err, tuple(changed)))
         rp = {"op": c["line"], "mode": c["mode"], "protect": [c["p0"], c["p1"]], "error": err, "changed_files": changed,
@@ -346,10 +358,12 @@ def main():
                 V_("C11/rdonly-not-refused/%s" % c["name"], "%s returns %d instead of GD_E_ACCMODE through a read-only handle" % (what, err), c, rp)
         else:
             # fragment 2 (pre/format2) has no /PROTECT directive of its own: it inherits fragment 0's level
-            for g, p in ((0, c["p0"]), (1, c["p1"]), (2, c["p0"])):
+            # fragment 3 (pre/deep/format3) says /PROTECT format itself
+            ep0, ep1 = c.get("eff", (c["p0"], c["p1"]))
+            for g, p in ((0, ep0), (1, ep1), (2, ep0), (3, "format")):
                 if p in ("format", "all") and g in ch_meta and c["name"] != "gd_alter_protection":
                     bad = True
-                    V_("C11/format-protected-changed/%s" % c["name"], "%s changed the metadata of format-protected fragment %d (%s), error %d" % (
+                    V_("C11/format-protected-changed/%s%s" % (c["name"], "/reference-fixup" if "eff" in c else ""), "%s changed the metadata of format-protected fragment %d (%s), error %d" % (
                         what, g, sorted(mb.get(FRAGNAME[g], set()) ^ ma.get(FRAGNAME[g], set()))[:4], err), c, rp)
                 if p in ("data", "all") and g in ch_data:
                     bad = True
